@@ -68,3 +68,11 @@ for kind in ('svg', 'png', 'eps'):
     for bad in ('#-12345', '#+1+2+3', '#1_2_3_'):
         put('C14', 'f28-hex-%s-%s' % (kind, ''.join('%02x' % ord(c) for c in bad)), {'what': 'serializer', 'kind': kind, 'opts': {'dark': bad}, 'bad': 'colour'}, note='fixed ffc3e27')
 print('C14 regress written')
+
+# F29
+for i, (d, li) in enumerate(((([255, 0, 0, 128]), 'DEFAULT'), ('#ff000080', 'white'), ('#00000080', None), ([0, 0, 0, 0.5], '#00ff00'), ('black', '#ffffff80'))):
+    opts = {'dark': d, 'border': 1}
+    if li != 'DEFAULT':
+        opts['light'] = li
+    put('C09', 'f29-pam-alpha-%d' % i, {'sym': {'content': enc_content('12345'), 'kw': {'version': 1, 'mask': 2}}, 'kind': 'pam', 'opts': opts}, note='fixed 971f002')
+print('F29 regress written')
